@@ -7,7 +7,7 @@
    that need it state the FS contract (the listing shows the files; creation adds exactly the new name). *)
 From Coq Require Import ZArith List Bool.
 From PCB Require Import lib.Result lib.PyInt gen.Gen_dosnames model.DosNames model.Paths model.PathsNt
-  proofs.DosNames_proofs proofs.Paths_proofs proofs.Paths_lookup_proofs.
+  model.PathsLocks proofs.DosNames_proofs proofs.Paths_proofs proofs.Paths_lookup_proofs proofs.PathsLocks_proofs.
 Import ListNotations.
 Open Scope Z_scope.
 
@@ -157,6 +157,53 @@ Print Assumptions C28_files_lists_openable.
 Theorem C28_plus_not_legal : forall s, In 43 s -> is_special s = false -> dos_is_legal_name s = false.
 Proof. exact plus_not_legal. Qed.
 Print Assumptions C28_plus_not_legal.
+
+(* ---- the lock table of a drive (model/PathsLocks.v: Locks.open_file / close_file / list_open and their use by
+   DiskDevice.open, NAME and KILL); `basename` (ntpath.basename) is universally quantified ---- *)
+
+(* a failed OPEN - name resolution, lock acquisition or opening the host file fails - leaves the table exactly
+   as it was, for a file number that is not in use (Files.open refuses numbers in use beforehand) *)
+Theorem C28_failed_open_unchanged : forall basename t resolved name number mode lock access stream,
+  ~ In number (map fst t) ->
+  is_ok (snd (dev_open basename t resolved name number mode lock access stream)) = false ->
+  fst (dev_open basename t resolved name number mode lock access stream) = t.
+Proof. exact failed_open_unchanged. Qed.
+Print Assumptions C28_failed_open_unchanged.
+
+(* after CLOSE of every file number the table is empty: no name has an entry *)
+Theorem C28_close_all_empty : forall basename t name,
+  close_all t = [] /\ list_open basename (close_all t) name = [].
+Proof. intros b t name. split; [apply close_all_empty | apply close_all_no_entries]. Qed.
+Print Assumptions C28_close_all_empty.
+
+(* a name without an entry gets its lock in every mode (OUTPUT and APPEND create), and NAME / KILL are not
+   refused with File already open *)
+Theorem C28_open_free_name : forall basename t name number mode lock access,
+  list_open basename t name = [] ->
+  snd (dev_open basename t (Ok tt) name number mode lock access (Ok tt)) = Ok tt
+  /\ require_not_open basename t name = Ok tt.
+Proof. intros b t name n m l a H. split; [apply dev_open_free_name; exact H | apply name_kill_free_name; exact H]. Qed.
+Print Assumptions C28_open_free_name.
+
+(* together: a failed numbered OPEN leaves no trace - the name can be created / renamed / killed afterwards *)
+Theorem C28_failed_open_then_create :
+  forall basename t resolved name name' number mode lock access stream mode' number' lock' access',
+  ~ In number (map fst t) -> list_open basename t name' = [] ->
+  is_ok (snd (dev_open basename t resolved name number mode lock access stream)) = false ->
+  let t1 := fst (dev_open basename t resolved name number mode lock access stream) in
+  snd (dev_open basename t1 (Ok tt) name' number' mode' lock' access' (Ok tt)) = Ok tt
+  /\ require_not_open basename t1 name' = Ok tt.
+Proof. exact failed_open_then_create. Qed.
+Print Assumptions C28_failed_open_then_create.
+
+(* non-vacuity of the lock theorems: a second OPEN FOR OUTPUT of an open name is refused (55), a failed OPEN of
+   a missing file registers nothing, the name is then free *)
+Example C28_locks_nonvacuous :
+  let t1 := fst (dev_open nt_basename [] (Ok tt) [65; 46; 84] 1 79 [] [] (Ok tt)) in
+  t1 <> [] /\ snd (dev_open nt_basename t1 (Ok tt) [97; 46; 116] 2 79 [] [] (Ok tt)) = Err dn_E_FILE_ALREADY_OPEN /\
+  fst (dev_open nt_basename [] (Err dn_E_FILE_NOT_FOUND) [65; 46; 84] 1 73 [] [] (Ok tt)) = [] /\
+  close_all t1 = [].
+Proof. vm_compute. repeat split. discriminate. Qed.
 
 (* non-vacuity: "abc.txt" is created as ABC.TXT in an empty directory and "Abc.Txt" then finds ABC.TXT;
    the hypotheses of C28_found_again are satisfiable (the conclusion is obtained THROUGH the theorem) *)
